@@ -827,6 +827,7 @@ impl<F: Read + Write + Seek> CompoundFile<F> {
         // the root always already exists and will have been rejected above.
         debug_assert!(!names.is_empty());
         let name = names.pop().unwrap();
+        internal::path::validate_name(name)?;
         let parent_id = match self.stream_id_for_name_chain(&names) {
             Some(stream_id) => stream_id,
             None => not_found!("Parent storage doesn't exist"),
@@ -1010,6 +1011,7 @@ impl<F: Read + Write + Seek> CompoundFile<F> {
         // the root always already exists and will have been rejected above.
         debug_assert!(!names.is_empty());
         let name = names.pop().unwrap();
+        internal::path::validate_name(name)?;
         let parent_id = match self.stream_id_for_name_chain(&names) {
             Some(stream_id) => stream_id,
             None => not_found!("Parent storage doesn't exist"),
